@@ -526,7 +526,7 @@ impl Ctx {
         let _ = std::fs::create_dir_all(&rdir);
         if let Ok(rd) = std::fs::read_dir(&rdir) {
             // stale replays of earlier runs of this property would be confusing
-            let prefix = format!("{}-seed", self.prop);
+            let prefix = format!("{}-seed{}-", self.prop, self.seed);
             for e in rd.flatten() {
                 if e.file_name().to_string_lossy().starts_with(&prefix) && self.replay.is_none() {
                     let _ = std::fs::remove_file(e.path());
